@@ -1,4 +1,5 @@
 import StrumModel.Collect
+import StrumModel.DiscHeader
 import StrumModel.FromStr
 /-
 Line protocol shared by the Rust harness and the Lean driver (see DESIGN.md §4.2).
@@ -184,6 +185,47 @@ def decodeEItem (s : String) : Option EItem :=
   | ["cis"] => some .constIntoStr
   | ["crate"] => some .cratePath
   | _ => none
+
+def decodeDItem (s : String) : Option DItem :=
+  match s.splitOn "~" with
+  | ["der", v] => (decodeList v).map .derive
+  | ["nam", v] => (decodeStr v).map .name
+  | ["vis", v] => (decodeStr v).map .vis
+  | ["doc", v] => (decodeStr v).map .doc
+  | ["oth", v] => (decodeStr v).map .other
+  | _ => none
+
+/-- `path~text~inner` with `inner` = `-` when the attribute is not of the form `path(..)` -/
+def decodeVAttr (s : String) : Option VAttr :=
+  match s.splitOn "~" with
+  | [p, t, i] => do
+    let p ← decodeStr p
+    let t ← decodeStr t
+    let i ← decodeOptStr i
+    pure { path := p, text := t, inner := i }
+  | _ => none
+
+/-- `discheader name=.. vis=.. reprs=a,b attrs=g1|g2 vattrs=v1a;v1b/v2a` (a variant without attributes is a single dash): the header of the generated discriminants
+    enum and the attributes of its variants; answer `ok name=.. vis=.. into=0|1 attrs=a;b vattrs=../..` or `err` -/
+def runDiscHeader (toks : List String) : Option String := do
+  let name ← decodeStr (← kv toks "name")
+  let vis ← decodeStr (← kv toks "vis")
+  let reprs ← decodeList (← kv toks "reprs")
+  let a ← kv toks "attrs"
+  let attrs ← if a = "-" then some [] else (a.splitOn "|").mapM (fun g => (g.splitOn ";").mapM decodeDItem)
+  let va ← kv toks "vattrs"
+  let vattrs ← (va.splitOn "/").mapM (fun v => if v = "-" then some [] else (v.splitOn ";").mapM decodeVAttr)
+  let joinHex (l : List Bytes) : String := if l.isEmpty then "-" else String.intercalate ";" (l.map encodeStr)
+  match collectDisc attrs with
+  | .error _ => pure "err"
+  | .ok p =>
+    let h := discHeader name vis reprs p
+    let outs := vattrs.map variantAttrsOut
+    if outs.any (fun o => match o with | .error _ => true | .ok _ => false) then pure "err"
+    else
+      let vs := outs.map (fun o => match o with | .ok l => joinHex l | .error _ => "-")
+      pure ("ok name=" ++ encodeStr h.name ++ " vis=" ++ encodeStr h.vis ++ " into=" ++ (if h.intoDisc then "1" else "0") ++
+            " attrs=" ++ joinHex h.attrs ++ " vattrs=" ++ String.intercalate "/" vs)
 
 /-- `rawenum <id> name=.. attrs=g1|g2 reprattrs=.. dname=.. dvis=..` (items of a group separated by `;`) -/
 def decodeRawEnum (toks : List String) : Option RawEnum := do
